@@ -40,7 +40,7 @@ CHECKS = {
    text="Four loaders x every limit 0..size+2 (quick: seeded third) x concurrency x release policy on forked logs with skip references; count = min(max(n,k),size), supplied entries kept, nothing strictly more recent omitted, equal result sets for two runs differing only in schedule (when clocks are distinct), the caller's limit variable untouched; a quarter of the logs under the link-encrypting codec.",
    note="Membership uses the strict part of (time, clock id) so ties cannot false-alarm."),
  "C11": dict(cat="fault_enumeration", ref="§3 C11", tech="fault injection at the block-store boundary + offline checker over the recorded Get event log + state-based hang detector, child processes",
-   text="Every fault kind (absent, removed, I/O error, undecodable, non-entry block, hang until timeout) at every structural position class (all heads, one head, cut vertex, everything, independent subsets) x exclusion sets x concurrency x completion orders; the event log is checked for double / excluded requests and for the deadline of every request's context (a configured timeout bounds every request, also under a caller deadline), the result against the model's reachability closure, termination by quiescence; through FetchAll and through the manifest loader, default and link-encrypting codec (incl. sealed links with a wrong-length nonce); a fifth of the quick cases again under the race detector.",
+   text="Every fault kind (absent, removed, I/O error, undecodable, non-entry block, hang until timeout) at every structural position class (all heads, one head, cut vertex, everything, independent subsets) x exclusion sets x concurrency x completion orders; the event log is checked for double / excluded requests and for the deadline of every request's context (a configured timeout bounds every request, also under a caller deadline), the result against the model's reachability closure, termination by quiescence; through FetchAll and through the manifest loader, default and link-encrypting codec (incl. sealed links with a wrong-length nonce), the entry-hash loader, every spelling of "no limit" (-1, -2, -100), a legacy-codec chain with a block that never arrives under a fetch timeout; a fifth of the quick cases again under the race detector.",
    note="Fault kinds x position classes are enumerated; subsets and histories are sampled. Termination is bounded progress (quiescent store, timeouts fired), not liveness."),
  "C12": dict(cat="fault_enumeration", ref="§3 C12", tech="hostile-input generation (exhaustive single-edit matrix on generic CBOR/JSON values, truncations at every offset, bit flips, random bytes) decoded under recover + placement runs in journalled child processes",
    text="Single edits are enumerated exhaustively (field paths x 21 replacement kinds on v2, link-encrypted v2, v1, manifest and v0 templates); multi-edits, bit flips and placements are sampled; every accessor / comparator / Verify / Join is called on whatever decodes; stored logs with hostile blocks at head / interior / root / reference-only positions must load the rest through all loaders with the process alive, the loaded log must keep working (size-bounded merges with every bound class, iteration, append), head lists with 40-240 hostile blocks interleaved load completely at high concurrency; a fifth of the quick placement cases again under the race detector.",
@@ -55,19 +55,19 @@ CHECKS = {
    text="Seeded option combinations (default / 1-3 inclusive / exclusive / unknown upper bounds, inclusive / exclusive lower bounds inside the range, amounts 0..size+2) on forked logs; sequence, closure, error and no-panic clauses; in child processes every kind of bounded iteration is parked at its hook points while a writer starts on the same log, and trimmed logs are iterated at their oldest entry before a writer runs (state-based deadlock classifier).",
    note="With several causally related inclusive bounds plus an amount the oracle tolerates a prefix short by at most #bounds-1 ('at most' in the property)."),
  "C16": dict(cat="exploration", ref="§3 C16", tech="runtime monitor: replay twins (same history, identical hashes) compared for bounded vs unbounded merge, every n in 0..total+3",
-   text="For pairs of replicas of seeded histories and every bound the bounded merge is compared with the tail of the twin's unbounded linearisation; heads against the model; sequences of two bounded merges (first bound 0..total-1) followed by an append.",
+   text="For pairs of replicas of seeded histories and every bound the bounded merge is compared with the tail of the twin's unbounded linearisation; heads against the model; sequences of two bounded merges (first bound 0..total-1) followed by an append; pairs under the legacy codec (CIDv0 identifiers), sources trimmed before, sources ending in empty / nil payloads.",
    note="Sequence comparison only where the ordering is total on the merged set; counts/heads always."),
  "C17": dict(cat="fault_enumeration", ref="§3 C17", tech="online closure assertion inside the store's Add (under its mutex) + crash-point enumeration: reload of every published hash from every store prefix; injected write failures",
-   text="Every block write of seeded histories is checked for causal closure with the codec in use; every returned manifest / entry hash / head list is reloaded from the store prefix at its return and from later prefixes (thorough: every later prefix) and compared (log id, entries, heads, values) with the state recorded at that moment; failed writes must fail the operation and leave the log unchanged.",
+   text="Every block write of seeded histories is checked for causal closure with the codec in use; every returned manifest / entry hash / head list is reloaded from the store prefix at its return and from later prefixes (thorough: every later prefix) and compared (log id, entries, heads, values) with the state recorded at that moment; store outages of 1, 2, 3 or 6 consecutive block writes: an operation during which the store refused a write must fail, leave the log unchanged and never return a hash the store does not hold; in half of the histories one recovering process performs all reloads with one reused options value.",
    note="Crash = loss of all block writes after a prefix; single block writes are atomic. Reload clauses under default and link codecs; closure assertion under all three."),
  "C18": dict(cat="exploration", ref="§3 C18", tech="runtime monitor: byte-pattern search on raw blocks captured at Add time (8 encodings per link) + three independent reader codecs (same / no / other key)",
-   text="For every appended entry with links under a link key: no encoding of any link in the stored bytes, no traversable IPLD links, same-key reader recovers identical lists, verifies, loads and merges the log (also four same-key readers merging one loaded log at the same time; twin entries with different pointer counts written through one codec instance); readers whose key differs in one bit (all 256), no-key and other-key readers obtain no links.",
+   text="For every appended entry with links under a link key: no encoding of any link in the stored bytes, no traversable IPLD links, same-key reader recovers identical lists, verifies, loads and merges the log (also four same-key readers merging one loaded log at the same time; twin entries with different pointer counts written through one codec instance); readers whose key differs in one bit (all 256), no-key and other-key readers obtain no links; every entry a link-key replica holds (created, loaded with or without the key, hand-built) is stored AGAIN through the keyed codec and the new block scanned.",
    note="Nonce reuse / ciphertext indistinguishability are not observable by this monitor."),
  "C19": dict(cat="exploration", ref="§3 C19", tech="exhaustive axiom evaluation over a finite synthetic domain (11664 pairs, 1.26M triples) + all permutations of sampled multisets + draws from real histories",
    text="Irreflexivity, totality, antisymmetry, transitivity, causality-respect, default = hash-tiebreak on distinct clocks, first-write-wins = reverse, NoZeroes transparency, Sort permutation/determinism, independence from an entry object's history (objects compared before and then re-hashed / re-clocked compare like fresh ones). The pair/triple axioms are enumerated completely over the stated domain (exhaustive: true).",
    note="Clock times are non-negative as in every entry the library creates."),
  "C20": dict(cat="exploration", ref="§3 C20", tech="runtime monitor: reference map id -> key bytes over seeded interleavings across keystore instances sharing an instrumented datastore; identity clauses verified directly with libp2p",
-   text="1-4 real Keystore instances over one datastore, up to 400 ids (beyond the 128-entry cache), restarts; HasKey/GetKey on every instance after every creation; identity stability (also after requests and identity creations under an ended context, on context-honouring and context-ignoring datastores) and the three signature clauses, also for the identity a reader decodes from a stored entry; thorough adds concurrent use under the race detector.",
+   text="1-4 real Keystore instances over one datastore, up to 400 ids (beyond the 128-entry cache), restarts; HasKey/GetKey on every instance after every creation; identity stability (also after requests and identity creations under an ended context, on context-honouring and context-ignoring datastores) and the three signature clauses, also for the identity a reader decodes from a stored entry; path-like ids, the empty id, keys created again, keystores over another datastore, one provider object serving two identities; concurrent use of shared instances under the race detector (quick: a slice, thorough: all).",
    note="Each id is created once (a second raw CreateKey on the same id replaces the key and is outside 'a key once created'). One recorded finding: ids that differ only by path cleaning (doubled separators, dot segments) share one datastore key; matched narrowly (the probe checks that both ids clean to the same key)."),
 }
 PENDING = {}
